@@ -59,6 +59,9 @@ def judge(ctx, status: str) -> list[dict]:
     def v(rule: str, msg: str, **sig: Any) -> None:
         sig.setdefault("entry", ctx.config.get("entry"))
         sig["workers_ge2"] = int(ctx.config.get("workers", 1)) >= 2
+        f = ctx.facts.get("internal_fault")
+        if f is not None:
+            sig.setdefault("stage", f["stage"])
         vs.append({"rule": f"C05/{rule}", "message": msg, "signature": sig})
 
     cfg = ctx.config
@@ -114,8 +117,19 @@ def judge(ctx, status: str) -> list[dict]:
     # R4: internal fault / network error / dead thread => reported error (or exception out of the loop)
     if fault is not None and not escaped:
         op = fault.get("op")
-        related = [e for e in nonfatal if op is None or e.label == op or op in str(e.label)]
         fphase = PHASE_VALUE.get(fault.get("phase"))
+        related = [
+            e
+            for e in nonfatal
+            if op is None
+            or e.label == op
+            or op in str(e.label)
+            # stateful: errors are reported for the state machine as a whole ("Stateful tests")
+            or (not e.related_to_operation and (fphase is None or e.phase.value == fphase))
+        ]
+        if fault["stage"] == "traversal":
+            # raised while the shared operation iterator advances: not attributable to one test by the engine
+            related = [e for e in nonfatal if fphase is None or e.phase.value == fphase]
         # "the run says so": an error event, or the affected scenario reported as failed/errored
         said = [
             e
@@ -124,6 +138,17 @@ def judge(ctx, status: str) -> list[dict]:
             and (fphase is None or e.phase.value == fphase)
             and (op is None or e.label == op or e.label is None)
         ]
+        # stateful data-generation errors surface through Hypothesis as a failed suite without a scenario of
+        # their own; "the run says so" is read as: the enclosing suite/phase of the fault's phase is failed/errored
+        fp_actual = PHASE_VALUE.get(fault.get("phase") or "")
+        if not said and fp_actual is not None:
+            said = [
+                e
+                for e in delivered
+                if isinstance(e, (events.SuiteFinished, events.PhaseFinished))
+                and e.status.value in ("failure", "error")
+                and (e.phase.value if isinstance(e, events.SuiteFinished) else e.phase.name.value) == fp_actual
+            ]
         if not related and not fatal and not said:
             v(
                 "R4",
